@@ -268,6 +268,10 @@ func c10Gen(r *sim.Rand, tier string) *sim.Case {
 	}
 	if r.P(15) {
 		cs.Knobs["rot"] = int64(sim.Pick(r, 300, 600, 1500))
+	} else if cs.Knobs["logstart"] == 1 && r.P(30) {
+		// log retention: files older than this many hours are removed by the hourly retention pass
+		// (no size rotation in these runs, so the only file is the live one, which must survive)
+		cs.Knobs["maxage_h"] = int64(sim.Pick(r, 1, 1, 2))
 	}
 	cs.Knobs["skipmax"] = int64(sim.Pick(r, 1, 1, 2, 4, 16))
 	cs.Knobs["maporder"] = int64(r.N(4))
@@ -299,6 +303,10 @@ func c10Gen(r *sim.Rand, tier string) *sim.Case {
 			}
 		}
 		cs.Ops = append(cs.Ops, sim.Op{K: "tick", A: []int64{int64(r.Weighted(0, 6, 2, 1, 0, 0, 1))}})
+		if cs.Knobs["maxage_h"] > 0 && cs.Knobs["idled"] == 0 && r.P(35) {
+			cs.Ops = append(cs.Ops, sim.Op{K: "idle"}) // at most one per run: it costs 2-3 simulated hours of 5 s flush ticks
+			cs.Knobs["idled"] = 1
+		}
 		if nips < 3 && r.P(8) {
 			cs.Ops = append(cs.Ops, sim.Op{K: "addip"})
 			nips++
@@ -333,6 +341,7 @@ func c10Run(c *sim.Ctx) {
 	}
 	w.m = m
 	var dir string
+	var lg *nat.Logger
 	const base = "nat.log"
 	var diag *observer.ObservedLogs
 	if w.logmode != "none" {
@@ -342,9 +351,9 @@ func c10Run(c *sim.Ctx) {
 		}
 		defer os.RemoveAll(dir)
 		format := nat.LogFormat(w.logmode[strings.IndexByte(w.logmode, '-')+1:])
-		lg, err := nat.NewLogger(nat.LoggerConfig{Enabled: true, FilePath: filepath.Join(dir, base), Format: format,
+		lg, err = nat.NewLogger(nat.LoggerConfig{Enabled: true, FilePath: filepath.Join(dir, base), Format: format,
 			BufferSize: int(cs.Knob("bufsize", 1000)), BulkLogging: strings.HasPrefix(w.logmode, "bulk"),
-			MaxFileSize: cs.Knob("rot", 0)}, zap.New(func() zapcore.Core {
+			MaxFileSize: cs.Knob("rot", 0), MaxAge: time.Duration(cs.Knob("maxage_h", 0)) * time.Hour}, zap.New(func() zapcore.Core {
 			core, obs := observer.New(zapcore.ErrorLevel)
 			diag = obs
 			return core
@@ -450,6 +459,23 @@ func c10Run(c *sim.Ctx) {
 		case "addip":
 			flush()
 			addIP()
+		case "idle":
+			// a quiet period longer than the log retention age: the hourly retention pass runs over a
+			// log directory whose files were last written before the cut-off
+			flush()
+			ma := time.Duration(cs.Knob("maxage_h", 0)) * time.Hour
+			if ma <= 0 || dir == "" || lg == nil || c.Failed() {
+				continue
+			}
+			lg.Flush()
+			if es, err := os.ReadDir(dir); err == nil {
+				for _, e := range es {
+					// the files live on the real file system; give them the simulated "last written" time
+					os.Chtimes(filepath.Join(dir, e.Name()), time.Now(), time.Now())
+				}
+			}
+			c.S.Fault("clock.jump-past-log-retention")
+			c.S.Sleep(ma + time.Hour + time.Minute)
 		}
 	}
 	flush()
